@@ -188,7 +188,11 @@ def parse_layout_prints(ctx, out, cases, units):
 
 def replay_layouts(ctx):
     rng = random.Random(ctx.seed)
-    cases = _fid.tlc_cases(ctx, "Gen_Store", "Gen_Store.cfg", timeout=300)
+    allcases = _fid.tlc_cases(ctx, "Gen_Store", "Gen_Store.cfg", timeout=300)
+    cases = [c for c in allcases if c.get("what") != "vint"]
+    ctx.vint_cases = [c for c in allcases if c.get("what") == "vint"]
+    if len(ctx.vint_cases) < 27:
+        raise vlib.ToolError("Gen_Store produced no length-prefix boundary cases")
     if len(cases) < 1000:
         raise vlib.ToolError("Gen_Store produced too few cases")
     ctx.cov["generated_layouts"] = len(cases)
@@ -230,6 +234,36 @@ def random_docs(ctx):
     return units
 
 
+def length_prefix_values(ctx):
+    """stored text / bytes / JSON string values whose length is around a switch of the variable-length length prefix
+    (2^7, 2^14, 2^21 - enumerated by TLC from Store!VintSwitches); long values travel as (length, hash, head, tail)"""
+    vs = sorted(ctx.vint_cases, key=lambda c: (c["len"], c["kind"]))
+    specs = [{"big": {"kind": c["kind"], "len": c["len"], "seed": 7 + i}} for i, c in enumerate(vs)]
+    cut = len(specs) // 2
+    cases = []
+    for i, (comp, thread, mc) in enumerate([("lz4", False, None), ("none", True, "lz4")] if not ctx.quick else [("lz4", False, None)]):
+        c = {"id": i, "cfg": {"blocksize": 16384, "comp": comp, "thread": thread, "cache": 2}, "segs": [specs[:cut], specs[cut:]],
+             "deletes": [2], "merge": True, "access": "rand", "seed": 5 + i}
+        if mc:
+            c["merge_comp"] = mc
+        cases.append(c)
+    units, n_ok = run_cases(ctx, cases, "vint")
+    if units and n_ok == len(cases):
+        # binding: another generated length, or another hash of what was read back, must be rejected
+        t = json.loads(json.dumps(units[0]))
+        t[0]["big"][-1][2] += 1
+        _fid.must_reject(ctx, MOD, CFG, t, "generated_length_differs_from_written")
+        t = json.loads(json.dumps(units[0]))
+        seg = next(e for e in t if e.get("ev") == "seg" and any(isinstance(v, list) and v and "h" in v[0] for d in e["iter"] for v in d.values()))
+        d = next(d for d in seg["iter"] if any(isinstance(v, list) and v and "h" in v[0] for v in d.values()))
+        f = next(k for k, v in d.items() if v and "h" in v[0])
+        d[f][0]["h"] = "0" * 16
+        _fid.must_reject(ctx, MOD, CFG, t, "long_value_hash_changed")
+    ctx.cov["length_prefix_values"] = {"values": len(specs), "lengths": sorted({c["len"] for c in vs}), "accepted_cases": n_ok}
+    log(f"[R] {len(specs)} stored values with lengths around the length-prefix switches {sorted({c['len'] for c in vs})[1::3]}, {n_ok} of {len(cases)} cases accepted")
+    return units
+
+
 def selftest(ctx, units):
     u = next((x for x in units if any(e.get("ev") == "seg" and len(e["iter"]) >= 2 for e in x)), None)
     if not u:
@@ -259,9 +293,12 @@ def run(ctx):
                         "values are compared in the harness's canonical rendering (type tag + decimal / hex text), which is injective on OwnedValue; "
                         "JSON object key order is not compared; a pre-tokenized text is stored as its text",
                         "which document sits at an address is taken from the `id` fast field (independent of the store)",
-                        "zstd is not built into the harness (feature off): compressors none and lz4 only"]
+                        "zstd is not built into the harness (feature off): compressors none and lz4 only",
+                        "values of 4096 bytes or more are compared by length, 64-bit FNV-1a hash, first and last 16 bytes (the harness hashes what it wrote "
+                        "and what it read back with the same function); the length-prefix switch at 2^28 bytes is not exercised"]
     model_checking(ctx)
     units = replay_layouts(ctx)
+    length_prefix_values(ctx)
     units2 = random_docs(ctx)
     selftest(ctx, units2 or units)
 
